@@ -252,7 +252,7 @@ def run(ctx: Ctx):
 
     quick = ctx.tier == "quick"
     Lmax = 12 if quick else 16
-    nkeys = 4 if quick else 12
+    nkeys = 4 if quick else 30
     ctx.rule = (
         f"all (L <= {Lmax}, 1 <= B <= L): once without a key and with {nkeys} random keys, 1..3 co-batched "
         "multi-images with type sets drawn from 6 (scalars, vectors, pseudoscalars, 2-tensors; 1-3 types), the "
